@@ -24,7 +24,7 @@ META = {
              'string order differs from numeric order, permutation class, outcome).'),
     'exhaustive_part': 'all n! permutations for n<=5 of each sampled list',
     'workers': {'quick': 12, 'thorough': 16},
-    'watchdog': {'quick': 300, 'thorough': 1800},
+    'watchdog': {'quick': 600, 'thorough': 3600},
 }
 
 
